@@ -8,6 +8,13 @@ S (oracle, independent of M): constraint violations raise ValueError and leave t
 by a history ending with `initialisation()` equals a directly constructed one (`__dict__`, `levy_exponent`, `nu.integrate`,
 COS price); `calibrate_model_parameter`, `calibrate_model_parameter_to_atm_call`, `run_default_calibration`: value inside
 the interval, repricing within 1e-6, same model type, input untouched; ValueError exactly when the target is unreachable.
+Several live objects (`multi_probe`): one history interleaves assignments, initialisation() calls, deep copies, further
+constructions, model rebuilds and calibration calls over 2..6 parameter objects of the same / different families (the
+parameter objects of models returned by the default calibration included).  C: every object's own operation list replayed
+on M (which has no state shared between objects) against what the object looked like after each of its operations, and
+nobody else changed it.  S: after each successful initialisation() the object equals a directly constructed one, a model
+rebuilt from it equals the directly built model, every calibration that returned reprices; all direct constructions the
+oracles need are deferred to the end of the history (a construction is itself an event of such a history).
 Generated (ProofsGen/C20Table): `default_calibration`, constructor arguments, acceptance pattern of every setter, the
 attributes rewritten by `initialisation()` and the pricer / target configuration used inside the calibration objective are
 measured on the running code and re-checked by `lake build` (objective_is_repricing_function).
@@ -51,9 +58,17 @@ RULE = ("histories: 5 Parameters classes x start values x 4..14 operations drawn
         "hidden parameter value, plus unreachable targets; every third model rebuilt through zoo.reinitialised, every fifth calibration "
         "repeated on the same object; edge models (zero jump intensity with the volatility as calibrated parameter = Black-Scholes limit "
         "where the answer must be bs_sigma itself, HEM p = 1); two models of different families calibrated alternately (A, B, A', B, A) "
-        "and a returned model calibrated again. non-trivial = history with >= 1 accepted assignment and >= 1 "
-        "initialisation, or a calibration whose reachability was decided by the sign of the objective at both interval ends; "
-        "distinct = distinct (class, start, operations) / (family, parameters, product, target)")
+        "and a returned model calibrated again; multi-object histories: 2..3 initial objects (45% all of one family) + up to 6 through "
+        "deep copies / further constructions / the parameter objects of models returned by run_default_calibration, 5..14 random events "
+        "from {assignment (accepted / rejected, primary / cached / foreign attribute) on a random object, initialisation() of a random "
+        "object, deepcopy, construction, model rebuild, calibrate_model_parameter / _to_atm_call / run_default_calibration on a model "
+        "built earlier in the history or on a fresh one (product targets priced at a hidden value inside the interval)}, then a batch "
+        "update: primaries of every object re-assigned inside the documented box, possibly a calibration on another model, "
+        "initialisation() of every object in random order, a model rebuilt from every object. non-trivial = history with >= 1 accepted "
+        "assignment and >= 1 initialisation, or a calibration whose reachability was decided by the sign of the objective at both "
+        "interval ends, or a multi-object history in which another object's initialisation() / a calibration ran between an object's "
+        "accepted assignment and its own initialisation(); "
+        "distinct = distinct (class, start, operations) / (family, parameters, product, target) / event list")
 NOT_PROVED = [
     "calibrate_contract is a theorem about the model's `calibrate` UNDER the root finder's contract (returned x lies in [a,b], "
     "the objective was evaluated there and |f(x)| <= tol); scipy.optimize.brentq itself is trusted and only oracle-checked (repricing within 1e-6)",
@@ -66,13 +81,22 @@ NOT_PROVED = [
     "Gamma, power and sqrt inside the cached CGMY / VG attributes are abstract functions of M (`Irr`); their values are taken from "
     "scipy / numpy at the arguments M asks for",
     "rebuilt-vs-direct equality of levy_exponent / nu.integrate / COS price is oracle-checked; the theorem rebuilt_eq_direct is about the parameter object",
+    "independence of the parameter objects living in one process (no state shared between instances / families, deep copies and "
+    "calibration's private copies included) is a structural fact of M (one state per object, Drivers/C20 holds a single object); on "
+    "the implementation it is compared per object over interleaved histories (c20.multi.model) and oracle-checked "
+    "(c20.multi.derived_in_sync / rebuilt_vs_direct / calibrate), not proved",
     "float rounding of the rational cached attributes (HEM _xi, VG _c, BS variance) is compared at 2^-40 relative to the sum of the absolute terms",
 ]
 ASSUMPTIONS = [
     "attribute values are Python floats (a numpy float64 would turn ZeroDivisionError into inf/nan + RuntimeWarning)",
     "reachable target := objective at the two interval ends has opposite strict signs (|f| > 1e-9); then brentq must return; "
     "same strict signs => ValueError; otherwise (an end value within 1e-9 of 0 or NaN) only the exception type is checked",
-    "repricing tolerance 1e-6 (measured residuals over seeds 0..5: <= 1e-10), parameter-object equality exact",
+    "repricing tolerance 1e-6 (measured residuals over seeds 0..5: <= 1e-10), parameter-object equality exact; inside multi-object "
+    "histories a returned value that misses 1e-6 is still accepted when the objective changes sign within brentq's x-tolerance "
+    "(4e-12 + 1e-14 |x|) of it (the statement's 'within the root-finder tolerance', for steep objectives)",
+    "multi-object histories calibrate only models whose parameter object is in a re-initialised state, unchanged since the model was "
+    "built, and a proper model (model_ok); any ValueError of a calibration is accepted there ('or raises'), reachability is the "
+    "single-model calibration stream's subject",
 ]
 TRUSTED = ["scipy.optimize.brentq", "scipy.special.gamma, numpy.power, numpy.sqrt (values of the abstract Irr functions)",
            "rpylib COSPricer as the pricing function of the oracle (its correctness is C18's subject)"]
@@ -806,6 +830,467 @@ def interleaved_probe(ctx, cA, cB):
                                                                    "calibrations ran in between", "answers": answers}, cls=cls_)
 
 
+# ------------------------------------------------------ C + S: interleaved histories over SEVERAL live parameter objects
+# The property quantifies over "all sequences of parameter assignments": nothing says the process holds one parameter object.
+# A history here is a list of events over a growing pool of live objects (same / different families, deep copies of one another,
+# the private copies the calibration makes and the parameter objects of the models it returns):
+#   ["new", fam, start]            construct object #len(pool)
+#   ["copy", j]                    copy.deepcopy of object j (new object)
+#   ["set", j, name, value]        assignment (accepted or rejected)
+#   ["init", j]                    j.initialisation()
+#   ["build", j, spot, r, d]       model #len(models) rebuilt from object j
+#   ["calib", mi, cfg]             a calibration call on model mi (mode default: the returned model and its parameter object join
+#                                  the pools; slots stay empty when the call is skipped / raises, so indices are static)
+# Every direct construction the ORACLES need (fresh object / fresh model at the final values, repricing) is DEFERRED until the
+# whole history has run: constructing an object is itself an event of the history, and the oracle must not add events.
+MULTI_FAMS = ["cgmy", "vg", "hem", "cgmy", "vg", "hem", "merton", "bs"]
+MULTI_MAX_OBJECTS = 6
+
+
+def make_multi(rng):
+    ev, fams, clean, ver, models = [], [], [], [], []          # generator-side guesses (the run decides for itself)
+    same_family = rng.random() < 0.45
+    first = rng.choice(MULTI_FAMS)
+
+    def add_new(fam=None):
+        fam = fam or (first if same_family else rng.choice(MULTI_FAMS))
+        prims = CLASSES[fam][1]
+        start = dict(DEFAULTS[fam]) if rng.random() < 0.3 else {n: draw_value(rng, fam, n, True) for n in prims}
+        ev.append(["new", fam, start])
+        fams.append(fam), clean.append(True), ver.append(0)
+        return len(fams) - 1
+
+    def add_set(j, sane):
+        fam = fams[j]
+        prims = CLASSES[fam][1]
+        names = prims + DERIVED[fam] + ["extra"]
+        n = rng.choice(prims) if sane else rng.choice(names if rng.random() < 0.3 else prims)
+        ev.append(["set", j, n, draw_value(rng, fam, n, sane)])
+        clean[j] = False
+        ver[j] += 1
+
+    def add_init(j):
+        ev.append(["init", j])
+        clean[j] = True
+
+    def add_build(j):
+        ev.append(["build", j, rng.choice([100.0, 50.0, 1.0]), rng.choice([0.0, 0.02, 0.05]), rng.choice([0.0, 0.01, 0.03])])
+        models.append((j, ver[j]))
+        return len(models) - 1
+
+    def add_calib():
+        cands = [mi for mi, (j, v) in enumerate(models) if clean[j] and ver[j] == v and fams[j] in zoo.FAMILIES]
+        if (not cands or rng.random() < 0.3) and len(fams) < MULTI_MAX_OBJECTS:
+            fam = first if same_family and first in zoo.FAMILIES else rng.choice(zoo.FAMILIES)
+            ev.append(["new", fam, full_params(fam, zoo.draw_params(rng, fam))])
+            fams.append(fam), clean.append(True), ver.append(0)
+            mi = add_build(len(fams) - 1)
+        elif cands:
+            mi = rng.choice(cands)
+        else:
+            return
+        fam = fams[models[mi][0]]
+        mode = rng.choice(["default", "default", "default", "atm", "product"])
+        cfg = dict(mode=mode, maturity=round(rng.uniform(0.25, 2.0), 3))
+        if mode in ("default", "atm"):
+            cfg["bs_sigma"] = round(rng.uniform(0.1, 0.4), 3)
+        if mode == "atm" and rng.random() < 0.5:
+            alt = {"hem": ("intensity", (0.0, 30.0)), "merton": ("intensity", (0.0, 30.0)), "vg": ("nu", (0.01, 2.0)),
+                   "cgmy": ("g", (2.0, 60.0))}[fam]
+            cfg["parameter"], cfg["interval"] = alt[0], list(alt[1])
+        if mode == "product":
+            cfg["strike_rel"] = round(rng.uniform(0.85, 1.15), 4)
+            cfg["ptype"] = rng.choice(["CALL", "PUT"])
+            # the market price is the model's own price at a hidden value of the calibrated parameter well inside the interval:
+            # a solution exists (the property's quantifier), computed when the event runs (one more construction in the history)
+            lo, hi = mu.default_calibration[CLASSES[fam][3]].parameter_interval
+            cfg["hidden"] = round(rng.uniform(0.05, 5.0), 3) if fam == "cgmy" else round(rng.uniform(lo + 0.02 * (hi - lo), lo + 0.6 * (hi - lo)), 4)
+        ev.append(["calib", mi, cfg])
+        if mode == "default":
+            # the returned model (slot len(models)) and its parameter object (slot len(fams)) become live
+            fams.append(fam), clean.append(True), ver.append(0)
+            models.append((len(fams) - 1, 0))
+
+    for _ in range(rng.randint(2, 3)):
+        add_new()
+    for _ in range(rng.randint(5, 14)):
+        r = rng.random()
+        j = rng.randrange(len(fams))
+        if r < 0.42:
+            add_set(j, sane=rng.random() < 0.35)
+        elif r < 0.67:
+            add_init(j)
+        elif r < 0.75:
+            if len(fams) < 4:
+                ev.append(["copy", j])
+                fams.append(fams[j]), clean.append(clean[j]), ver.append(ver[j])
+        elif r < 0.80:
+            if len(fams) < 4:
+                add_new()
+        elif r < 0.90:
+            add_build(j)
+        else:
+            add_calib()
+    # closing phase, a batch update: (most) primaries of every object re-assigned inside the documented box, possibly something
+    # happening on ANOTHER object / model, then every object re-initialised, then a model rebuilt from every object
+    order = list(range(len(fams)))
+    rng.shuffle(order)
+    for j in order:
+        prims = list(CLASSES[fams[j]][1])
+        rng.shuffle(prims)
+        for n in prims:
+            if rng.random() < 0.8:
+                ev.append(["set", j, n, draw_value(rng, fams[j], n, True)])
+                clean[j] = False
+                ver[j] += 1
+    if rng.random() < 0.3:
+        add_calib()
+    order = list(range(len(fams)))
+    rng.shuffle(order)
+    for j in order:
+        add_init(j)
+    for j in order:
+        add_build(j)
+    return dict(kind="multi", events=ev)
+
+
+def observe(fam, obj, spot, r, d):
+    """what a model built from `obj` shows: Lévy exponent / omega, integrals of the Lévy measure, the COS price of the ATM call"""
+    expcls = CLASSES[fam][2]
+    with np.errstate(all="ignore"):
+        m = expcls(spot=spot, r=r, d=d, parameters=obj)
+        us = [0.7, -1.3 + 0.4j, -1j, 4.0 - 0.5j]
+        e = [m.levy_model.levy_exponent(u) for u in us] + [m.omega]
+        ivs = [(0.05, 0.4), (-0.5, -0.1), (0.2, np.inf), (-np.inf, -0.3)]
+        i = [m.levy_triplet.nu.integrate(a, b) for a, b in ivs] + [m.levy_triplet.nu.integrate_against_x(0.1, 0.6)]
+        call = Product(payoff_underlying=Spot(), payoff=Vanilla(strike=spot, payoff_type=PayoffType.CALL), maturity=1.0)
+        p = COSPricer(m).price(product=call)
+    return [("levy_exponent / omega", e), ("nu.integrate", i), ("COS price", p)]
+
+
+class _Live:
+    """one live parameter object: the operations IT went through (`log`; a deep copy inherits its source's) and what it looked
+    like after each of them (`snaps`: (outcome, __dict__) or None where the state could not be observed)"""
+    def __init__(self, fam, obj, log, snaps, clean, version=0):
+        self.fam, self.obj, self.log, self.snaps, self.clean, self.version = fam, obj, log, snaps, clean, version
+        self.pending = False      # an accepted assignment not yet followed by this object's own successful initialisation()
+        self.crossed = False      # ... and meanwhile ANOTHER object was initialised / a calibration ran
+
+
+def lean_replay(ctx, desc, cls_, k, lv):
+    """C: object k's own operation list run on M (Drivers/C20 holds one object: the model has no state shared between objects,
+    which is the point) and compared with what the implementation's object looked like after each of its operations"""
+    fam = lv.fam
+    prims = CLASSES[fam][1]
+    stale_nonfinite = False
+    for i, op in enumerate(lv.log):
+        if op[0] == "new":
+            start = [op[1][n] for n in prims]
+            tbl, stale_nonfinite = eval_queries(ctx.lean(f"qnew {fam} {wl(start)}"))
+            ans = ctx.lean(f"new {fam} {wl(start)} {tbl}").split(" ")
+            if ans[0] == "bad-op":
+                raise Infra(f"driver rejected new {fam}")
+        elif op[0] == "set":
+            ans = ctx.lean(f"set {op[1]} {w(op[2])}").split(" ")
+            if op[1] in DERIVED[fam] and ans[0] == "ok":
+                stale_nonfinite = False
+        else:
+            tbl, stale_nonfinite = eval_queries(ctx.lean("queries"))
+            ans = ctx.lean(f"init {tbl}").split(" ")
+        if lv.snaps[i] is None:
+            continue
+        out_py, d_py = lv.snaps[i]
+        bad = None
+        if out_py != ans[0]:
+            bad = {"what": "outcome differs", "impl": out_py, "model": ans[0]}
+        elif out_py == "ok" or op[0] != "new":
+            bad = compare_dicts(fam, d_py, parse_dict(ans[1]), skip_derived=stale_nonfinite)
+        if bad:
+            ctx.fail("corr", "c20.multi.model", desc, dict(bad, name="Drivers/C20 per-object replay vs the object inside an interleaved history",
+                                                           object=k, op_index=i, op=op), cls=dict(cls_, family=fam))
+            return False
+    return True
+
+
+def multi_probe(ctx, h, with_model=True):
+    st = dict(pool=[], interleaved=0)
+    try:
+        _multi_body(ctx, h, with_model, st)
+    finally:
+        live = [lv for lv in st["pool"] if lv is not None]
+        fams_used = {lv.fam for lv in live}
+        ctx.count("c20.multi", h, nontrivial=st["interleaved"] >= 1,
+                  branch=f"{min(len(live), 4)}{'+' if len(live) > 4 else ''}obj:{'same' if len(fams_used) == 1 else 'mixed'}")
+        if st["interleaved"]:
+            ctx.branches["c20.multi:interleaved_inits"] += st["interleaved"]
+
+
+def _multi_body(ctx, h, with_model, st):
+    desc = h
+    pool, models = st["pool"], []  # _Live | None ;  dict(model, j, version) | None
+    cls0 = dict(stream="multi")
+    sync_checks, model_checks, calib_checks = [], [], []
+    t_fams = set()
+
+    def others_moved(j):
+        for k, lv in enumerate(pool):
+            if lv is not None and k != j and lv.pending:
+                lv.crossed = True
+
+    for t, e in enumerate(h["events"]):
+        kind = e[0]
+        if kind == "new":
+            fam, start = e[1], e[2]
+            holder = {}
+            out = py_call(lambda: holder.setdefault("o", CLASSES[fam][0](**start)))
+            if out != "ok":
+                pool.append(None)
+                ctx.branches["c20.multi:new_raises"] += 1
+                continue
+            pool.append(_Live(fam, holder["o"], [["new", dict(start)]], [("ok", dict(holder["o"].__dict__))], True))
+            t_fams.add(fam)
+        elif kind == "copy":
+            src = pool[e[1]]
+            if src is None:
+                pool.append(None)
+                continue
+            lv = _Live(src.fam, copy.deepcopy(src.obj), list(src.log), list(src.snaps), src.clean, src.version)
+            lv.pending, lv.crossed = src.pending, src.crossed
+            pool.append(lv)
+        elif kind == "set":
+            lv = pool[e[1]]
+            if lv is None:
+                continue
+            _, j, n, v = e
+            fam, obj = lv.fam, lv.obj
+            before = dict(obj.__dict__)
+            out = py_call(lambda: setattr(obj, n, v))
+            ctx.branches[f"c20.multi.op:{fam}:set:{out}"] += 1
+            lv.log.append(["set", n, v])
+            lv.snaps.append((out, dict(obj.__dict__)))
+            cls_ = dict(cls0, family=fam, attr=n)
+            if n in SPEC[fam]:
+                want = "ok" if PRED[SPEC[fam][n]](v) else "ValueError"
+                if out != want:
+                    ctx.fail("oracle", "c20.multi.constraints", desc, {"event": t, "what": f"assignment outcome {out}, the declared constraint {SPEC[fam][n]} says {want}"},
+                             cls=cls_)
+                    return
+            if out != "ok" and not _same_dict(before, obj.__dict__):
+                ctx.fail("oracle", "c20.multi.constraints", desc, {"event": t, "what": "rejected assignment changed the object",
+                                                                   "before": repr(before), "after": repr(obj.__dict__)}, cls=cls_)
+                return
+            if out == "ok":
+                if not same(obj.__dict__.get(n), v):
+                    ctx.fail("oracle", "c20.multi.constraints", desc, {"event": t, "what": "accepted value not stored",
+                                                                       "stored": repr(obj.__dict__.get(n))}, cls=cls_)
+                    return
+                lv.clean = False
+                lv.version += 1
+                lv.pending = True
+        elif kind == "init":
+            lv = pool[e[1]]
+            if lv is None:
+                continue
+            out = py_call(lv.obj.initialisation)
+            ctx.branches[f"c20.multi.op:{lv.fam}:init:{out}"] += 1
+            lv.log.append(["init"])
+            lv.snaps.append((out, dict(lv.obj.__dict__)))
+            others_moved(e[1])
+            if out == "ok":
+                if lv.pending and lv.crossed:
+                    st["interleaved"] += 1
+                lv.clean, lv.pending, lv.crossed = True, False, False
+                sync_checks.append((t, e[1], lv.fam, dict(lv.obj.__dict__)))
+            else:
+                lv.clean = False
+        elif kind == "build":
+            lv = pool[e[1]]
+            if lv is None:
+                models.append(None)
+                continue
+            _, j, spot, r, d = e
+            prim = {n: lv.obj.__dict__[n] for n in CLASSES[lv.fam][1]}
+            try:
+                with np.errstate(all="ignore"):
+                    model = CLASSES[lv.fam][2](spot=spot, r=r, d=d, parameters=lv.obj)
+            except Exception as ex:
+                ctx.branches["c20.multi.build:raises:" + type(ex).__name__] += 1
+                models.append(None)
+                continue
+            models.append(dict(model=model, j=j, version=lv.version))
+            if with_model and lv.clean and model_ok(lv.fam, prim):
+                try:
+                    obs = observe(lv.fam, lv.obj, spot, r, d)
+                except Exception as ex:
+                    ctx.branches["c20.multi.build:observe_raises:" + type(ex).__name__] += 1
+                    continue
+                model_checks.append((t, j, lv.fam, prim, (spot, r, d), obs))
+        elif kind == "calib":
+            _, mi, cfg = e
+            rec = models[mi] if mi < len(models) else None
+            lv = pool[rec["j"]] if rec is not None else None
+            usable = (lv is not None and lv.clean and lv.version == rec["version"] and lv.fam in zoo.FAMILIES
+                      and model_ok(lv.fam, {n: lv.obj.__dict__[n] for n in CLASSES[lv.fam][1]}))
+            if not usable:
+                ctx.branches["c20.multi.calib:skipped"] += 1
+                if cfg["mode"] == "default":
+                    pool.append(None), models.append(None)
+                continue
+            fam, model = lv.fam, rec["model"]
+            mt = CLASSES[fam][3]
+            dc = mu.default_calibration[mt]
+            name = cfg.get("parameter", dc.parameter)
+            lo, hi = cfg.get("interval", dc.parameter_interval)
+            T = cfg["maturity"]
+            spot, r, d = model.spot, model.r, model.d
+            prim = {n: lv.obj.__dict__[n] for n in CLASSES[fam][1]}
+            if cfg["mode"] == "product":
+                product = Product(payoff_underlying=Spot(), payoff=Vanilla(strike=spot * cfg["strike_rel"], payoff_type=PayoffType[cfg["ptype"]]),
+                                  maturity=T)
+                try:
+                    market = price_with(fam, prim, name, cfg["hidden"], spot, r, d, product)
+                except Exception:
+                    market = float("nan")
+                if not math.isfinite(market):
+                    ctx.branches["c20.multi.calib:skipped"] += 1
+                    continue
+            else:
+                product = Product(payoff_underlying=Spot(), payoff=Vanilla(strike=spot, payoff_type=PayoffType.CALL), maturity=T)
+                market = bs_call(spot, spot, r, d, cfg["bs_sigma"], T)
+            snap = dict(lv.obj.__dict__)
+            snap_model = (model.spot, model.r, model.d, model.omega, model.levy_triplet.a, model.levy_triplet.sigma)
+            res = {}
+            try:
+                with np.errstate(all="ignore"):
+                    if cfg["mode"] == "default":
+                        res["model"] = mu.run_default_calibration(model, maturity=T, bs_sigma=cfg["bs_sigma"])
+                        res["x"] = getattr(res["model"].levy_model.parameters, name)
+                    elif cfg["mode"] == "atm":
+                        res["x"] = mu.calibrate_model_parameter_to_atm_call(model=model, parameter=name, parameter_interval=(lo, hi),
+                                                                            maturity=T, bs_sigma=cfg["bs_sigma"])
+                    else:
+                        res["x"] = mu.calibrate_model_parameter(model=model, parameter=name, parameter_interval=(lo, hi),
+                                                                product=product, market_price=market)
+                out = "ok"
+            except ValueError:
+                out = "ValueError"
+            except Exception as ex:
+                ctx.fail("oracle", "c20.multi.calibrate", desc, {"event": t, "what": "calibration raised something other than ValueError",
+                                                                 "exception": repr(ex)[:400]}, cls=dict(cls0, family=fam, mode=cfg["mode"]))
+                return
+            ctx.branches[f"c20.multi.calib:{fam}:{cfg['mode']}:{out}"] += 1
+            others_moved(rec["j"])
+            after_model = (model.spot, model.r, model.d, model.omega, model.levy_triplet.a, model.levy_triplet.sigma)
+            if not _same_dict(snap, lv.obj.__dict__) or snap_model != after_model:
+                ctx.fail("oracle", "c20.multi.calibrate", desc, {"event": t, "what": "the calibration changed its input model",
+                                                                 "before": repr(snap), "after": repr(lv.obj.__dict__)},
+                         cls=dict(cls0, family=fam, mode=cfg["mode"]))
+                return
+            new_lv = new_rec = None
+            if out == "ok":
+                x = float(res["x"])
+                # the returned model is priced NOW (its parameter object is live and may be re-assigned by later events)
+                own = None
+                if cfg["mode"] == "default":
+                    with np.errstate(all="ignore"):
+                        own = float(np.asarray(COSPricer(res["model"]).price(product=product)).item())
+                calib_checks.append((t, fam, prim, name, x, (lo, hi), (spot, r, d), product, market, own))
+                if cfg["mode"] == "default":
+                    cm_ = res["model"]
+                    p2 = cm_.levy_model.parameters
+                    if p2 is lv.obj or type(cm_) is not type(model):
+                        ctx.fail("oracle", "c20.multi.calibrate", desc, {"event": t, "what": "the returned model shares its parameter object with the input "
+                                                                                             "or has another type"}, cls=dict(cls0, family=fam, mode="default"))
+                        return
+                    # the returned model's parameter object is a live object from now on: the input's operations, then the
+                    # assignment of the calibrated value (state not observable from outside) and an initialisation()
+                    new_lv = _Live(fam, p2, list(lv.log) + [["set", name, x], ["init"]],
+                                   list(lv.snaps) + [None, ("ok", dict(p2.__dict__))], True)
+                    new_rec = dict(model=cm_, j=len(pool), version=0)
+                    sync_checks.append((t, len(pool), fam, dict(p2.__dict__)))
+            if cfg["mode"] == "default":
+                pool.append(new_lv), models.append(new_rec)
+        else:
+            raise Infra(f"unknown event {e!r}")
+
+    live = [(k, lv) for k, lv in enumerate(pool) if lv is not None]
+
+    # ---- C (isolation part): nobody but the object's own operations changed it
+    for k, lv in live:
+        last = lv.snaps[-1][1]
+        if not _same_dict(last, lv.obj.__dict__):
+            ctx.fail("corr", "c20.multi.model", desc, {"name": "object changed by operations on OTHER objects", "object": k,
+                                                       "after_own_last_operation": repr(last), "now": repr(lv.obj.__dict__)},
+                     cls=dict(cls0, family=lv.fam))
+    # ---- S: derived_in_sync — after each successful initialisation() (and at the end, for every object whose last operation
+    # is one) the object equals a freshly constructed one at the primaries it held
+    for k, lv in live:
+        if lv.clean:
+            sync_checks.append((len(h["events"]), k, lv.fam, dict(lv.obj.__dict__)))
+    seen = set()
+    for t, k, fam, snap in sync_checks:
+        cls, prims = CLASSES[fam][0], CLASSES[fam][1]
+        final = {n: snap[n] for n in prims}
+        key = (k, repr(sorted(snap.items())))
+        if key in seen:
+            continue
+        seen.add(key)
+        try:
+            direct = cls(**final)
+        except Exception as ex:
+            ctx.fail("oracle", "c20.multi.derived_in_sync", desc, {"after_event": t, "object": k, "what": "constructor rejects the values the object holds",
+                                                                   "final": final, "exception": repr(ex)[:300]}, cls=dict(cls0, family=fam))
+            return
+        dd = direct.__dict__
+        for a in dd:
+            if a not in snap or not same(snap[a], dd[a]):
+                ctx.fail("oracle", "c20.multi.derived_in_sync", desc,
+                         {"after_event": t, "object": k, "what": "after its initialisation() an object of an interleaved history differs from "
+                          "the object constructed directly with the values it holds", "name": a, "held": repr(snap.get(a)), "direct": repr(dd[a]),
+                          "final": final}, cls=dict(cls0, family=fam, attr=a))
+                return
+    # ---- S: rebuilt vs direct at the level of the model
+    for t, k, fam, prim, (spot, r, d), obs in model_checks:
+        try:
+            ref = observe(fam, CLASSES[fam][0](**prim), spot, r, d)
+        except Exception as ex:
+            ctx.branches["c20.multi.build:direct_raises:" + type(ex).__name__] += 1
+            continue
+        ctx.branches["c20.multi.build:model"] += 1
+        for (what, a), (_w, b) in zip(obs, ref):
+            if not same(a, b):
+                ctx.fail("oracle", "c20.multi.rebuilt_vs_direct", desc,
+                         {"event": t, "object": k, "what": f"{what} of the model rebuilt from a re-initialised object of an interleaved history differs "
+                          "from the directly constructed model", "rebuilt": repr(a), "direct": repr(b), "final": prim},
+                         cls=dict(cls0, family=fam, attr=what))
+                return
+    # ---- S: every calibration that returned lies in its interval and reprices its target (fresh model, default pricer)
+    for t, fam, prim, name, x, (lo, hi), (spot, r, d), product, market, own in calib_checks:
+        cls_ = dict(cls0, family=fam, mode="default" if own is not None else "value")
+        if not (lo <= x <= hi):
+            ctx.fail("oracle", "c20.multi.calibrate", desc, {"event": t, "what": "calibrated value outside the interval", "x": x, "interval": [lo, hi]}, cls=cls_)
+            return
+        re = price_with(fam, prim, name, x, spot, r, d, product)
+        own = re if own is None else own
+        ok = abs(re - market) <= 1e-6 and abs(own - market) <= 1e-6
+        if not ok and abs(own - re) <= 1e-6:
+            # literally "within the root-finder tolerance": the objective changes sign within brentq's x-tolerance of the answer
+            dx = 4e-12 + 1e-14 * abs(x)
+            fl = price_with(fam, prim, name, max(lo, x - dx), spot, r, d, product) - market
+            fh = price_with(fam, prim, name, min(hi, x + dx), spot, r, d, product) - market
+            if fl * fh <= 0:
+                ok = True
+                ctx.branches["c20.multi.calib:steep_objective"] += 1
+        if not ok:
+            ctx.fail("oracle", "c20.multi.calibrate", desc, {"event": t, "what": "a calibration inside an interleaved history does not reprice its target",
+                                                             "x": x, "repriced": re, "returned_model_price": own, "market": market}, cls=cls_)
+            return
+    # ---- C: every object against M, object by object
+    for k, lv in live:
+        if not lean_replay(ctx, desc, cls0, k, lv):
+            return
+
+
 def draw_calibration(rng, fam, params, mode):
     c = dict(fam=fam, params=params, mode=mode, spot=rng.choice([100.0, 50.0, 1.0, 2500.0]), r=rng.choice([0.0, 0.02, 0.05]),
              d=rng.choice([0.0, 0.01, 0.03]), maturity=round(rng.uniform(0.25, 2.0), 3))
@@ -877,6 +1362,9 @@ def run(ctx):
         cB = draw_calibration(rng, fb, zoo.draw_params(rng, fb), "default")
         cA["bs_sigma2"] = round(rng.uniform(0.1, 0.4), 3)
         interleaved_probe(ctx, cA, cB)
+    # interleaved histories over several live parameter objects (same / different families, deep copies, calibration's copies)
+    for i in range(ctx.n(40, 400)):
+        multi_probe(ctx, make_multi(rng), with_model=True)
     if getattr(ctx, "notes_resid", None) is not None:
         ctx.notes.append(f"largest repricing residual of a successful calibration in this run: {ctx.notes_resid:.3e}")
 
@@ -886,6 +1374,8 @@ def replay(ctx, rec):
     p = rec.get("probe", "")
     if d.get("kind") == "interleaved":
         interleaved_probe(ctx, d["A"], d["B"])
+    elif d.get("kind") == "multi":
+        multi_probe(ctx, d, with_model=True)
     elif "ops" in d:
         history_probe(ctx, d, with_model=True)
     elif "mode" in d:
@@ -902,5 +1392,7 @@ def search(ctx):
     for i in range(ctx.n(300, 1500)):
         fam = rng.choice(list(CLASSES))
         history_probe(ctx, make_history(rng, fam, sane=True), with_model=True)
+        if i % 3 == 0:
+            multi_probe(ctx, make_multi(rng), with_model=True)
         if any(f["kind"] == "oracle" for f in ctx.failures):
             return
